@@ -12,7 +12,7 @@ import (
 	"vharness/verif"
 )
 
-var c19Keys = []string{"a", "a.b", "a.0", "b", "l"}
+var c19Keys = []string{"a", "a.b", "a.0", "b", "l", "0"}
 
 // value texts covering every syntax of parse.Value, empty value, malformed values
 var c19Vals = []string{"1", "-2", "1.5", "true", "str", "'q s'", `"d q"`, "[1,2]", "[3]", "{k: v}", "{k: {n: 1}}", "x,y", "null", "", "[1", "{a", "u=v", "'q=s'"}
